@@ -171,7 +171,7 @@ class S2(H.Session):
             t.rec = None
             if len(files) >= 2:
                 k = 1 + op[1] % (len(files) - 1)
-                ids = set(H.h5py.h5f.get_obj_ids(types=H.h5py.h5f.OBJ_FILE))
+                ids = H.open_h5_ids()
                 try:
                     r2 = self.cls([Path(p) for p in files[:k]], op[2])
                 except Exception:  # noqa: BLE001
